@@ -24,6 +24,8 @@ Core Lean only.
 -/
 namespace C12
 
+deriving instance DecidableEq for St
+
 /-! ## positions in a network script -/
 
 /-- the rest of the script after `cb` more bytes were taken from the network and `cf` more faults were used
@@ -80,6 +82,13 @@ def RecvObs.toRes (o : RecvObs) : Res :=
 /-- the bytes the observed call handed to the caller -/
 def RecvObs.handed (o : RecvObs) : Bytes := o.res.getD []
 
+/-- what the model's own `recv` did, written as an observation -/
+def obsOfRecv (p : Res × St) : RecvObs :=
+  ⟨match p.1 with
+    | .ok v => some v
+    | _ => none,
+   p.2.rbuf, (pending p.2.script).length, nTO p.2.script⟩
+
 /-! ## runs in which recv steps are observations and the framing calls are the model's -/
 
 inductive MStep where
@@ -90,6 +99,12 @@ deriving Repr, DecidableEq
 def MStep.det : MStep → Bool
   | .call op => op.deterministic
   | .recvObs _ _ => true
+
+/-- what the whole-stream meaning of a step depends on: the call, or what the observed recv returned (not the
+    observed buffer, undelivered count or fault count) -/
+def MStep.answer : MStep → MStep
+  | .call op => .call op
+  | .recvObs _ o => .recvObs 0 ⟨o.res, [], 0, 0⟩
 
 /-- `none` = some recv observation was not accepted -/
 def runMixed (cfg : Cfg) : List MStep → St → Option (List Res × St)
